@@ -19,6 +19,7 @@ RULE = (
     "contain only those names, string literals, + and calls. Non-trivial: pair differing only in formatting or only in run "
     "boundaries; repr of a multi-run value with >=2 attributes on a run."
     ' Both operands may be derived from observed parents (rendered/hashed before the derivation); pairs with the same display and the same number of runs but shifted or moved boundaries; repr texts include long whitespace-only runs.'
+    ' Operands also as FmtStr-subclass instances; the terminal string of a as the text of a plain run (FmtStr() + str(a)) as partner; a fixed spread of values with invisible formatting (no runs, empty runs, switched-off styles only) against every derivation at every seed.'
 )
 ASSUMPTIONS = ["'same terminal string' is judged with the library's own str() (C01 establishes what str() displays)"]
 SHARDS = {"quick": 4, "thorough": 16}
